@@ -25,6 +25,9 @@ func init() {
 			{ID: "R10b", Floor: 1, Doc: "extract: seek/copy window from the parsed header, no O_TRUNC, guarded truncate", Run: ruleR10b},
 			{ID: "R10c", Floor: 1, Doc: "wrap: pragma, header(size from SeekEnd), source from start, index — in order", Run: ruleR10c},
 			{ID: "R10e", Floor: 1, Doc: "extraction depends on the payload window only: the header fields that can influence ExtractV1File after parsing are DataOffset and DataSize (an archive without index, or with any IndexOffset/characteristics, extracts the same)", Run: ruleR10e},
+			{ID: "R10i", Floor: 1, Doc: "Reader.DataReader hands out a fresh reader on every call (a constructor's result, never a remembered one): Roots, Inspect and extraction each keep their own read position over the payload", Run: ruleR10i},
+			{ID: "R10j", Floor: 1, Doc: "a wrap writes a whole new file: WrapV1File opens its destination truncating (os.Create / O_TRUNC) — it has no trimming step of its own, so bytes of a longer old file would stay behind the index", Run: ruleR10j},
+			{ID: "R10k", Floor: 1, Doc: "a CARv2 header is final when it is written: no field of a header value is assigned after that value was handed to Header.WriteTo, unless it is written again (library and CLI)", Run: ruleR10k},
 			{ID: "R10d", Floor: 2, Doc: "reader windows from header fields", Run: ruleR10d},
 			{ID: "R10f", Floor: 2, Doc: "the index a wrap writes records true section offsets (= R03b)", Run: ruleR03b},
 			{ID: "R10g", Floor: 10, Doc: "no new dropped error in the container transforms (a failed write must fail the transform) (= R16h)", Run: ruleR16h},
@@ -448,4 +451,111 @@ func derefType(t types.Type) types.Type {
 		return p.Elem()
 	}
 	return t
+}
+
+func ruleR10i(c *Ctx, r *Report) {
+	fn, err := c.Func(modV2, "Reader", "DataReader")
+	if err != nil {
+		r.InfraFail("%v", err)
+		return
+	}
+	key := "fresh-reader@" + fnKey(fn)
+	bad := ""
+	n := 0
+	for _, ret := range returnsOf(fn) {
+		if len(ret.Results) == 0 || resultIsNilConst(ret, 0) {
+			continue
+		}
+		for _, o := range origins(retResult(ret, 0), originOpts{}) {
+			switch o.Kind {
+			case "call":
+				n++
+			case "const":
+			default:
+				bad = fmt.Sprintf("the reader returned at %s comes from %s (not from a constructor called here): every caller then shares one read position", c.Pos(ret.Pos()), o.Kind)
+			}
+		}
+	}
+	if bad == "" && n == 0 {
+		bad = "no constructor result returned"
+	}
+	r.Check(bad == "", key, c.Pos(fn.Pos()), fmt.Sprintf("%d constructor result(s) returned", n), bad)
+}
+
+func ruleR10j(c *Ctx, r *Report) {
+	fn, err := c.Func(modV2, "", "WrapV1File")
+	if err != nil {
+		r.InfraFail("%v", err)
+		return
+	}
+	key := "wrap-destination@" + fnKey(fn)
+	creates := callsToFunc(fn, "os", "", "Create")
+	opens := callsToFunc(fn, "os", "", "OpenFile")
+	truncs := callsToFunc(fn, "os", "File", "Truncate")
+	bad := ""
+	switch {
+	case len(creates) > 0:
+	case len(opens) > 0:
+		for _, o := range opens {
+			fl, isK := constInt(o.Common().Args[1])
+			if (!isK || fl&oTRUNC == 0) && len(truncs) == 0 {
+				bad = fmt.Sprintf("the destination is opened at %s without O_TRUNC and never trimmed: what a longer pre-existing file held stays behind the index", c.Pos(o.Pos()))
+			}
+		}
+	default:
+		bad = "no os.Create / os.OpenFile of the destination found"
+	}
+	r.Check(bad == "", key, c.Pos(fn.Pos()), "destination created truncating", bad)
+}
+
+func ruleR10k(c *Ctx, r *Report) {
+	n := 0
+	var bad []string
+	for _, fn := range c.RepoFuncs() {
+		for _, h := range headerWriteCalls(fn) {
+			ld, ok := h.Common().Args[0].(*ssa.UnOp)
+			if !ok {
+				continue
+			}
+			al, ok := ld.X.(*ssa.Alloc)
+			if !ok {
+				continue
+			}
+			n++
+			after := reach(fn, h.Block(), nil)
+			for _, ref := range *al.Referrers() {
+				fa, ok := ref.(*ssa.FieldAddr)
+				if !ok {
+					continue
+				}
+				for _, st := range storesTo(fa) {
+					later := after[st.Block()] && (st.Block() != h.Block() || instrIndex(st) > instrIndex(h.(ssa.Instruction)))
+					if st.Block() == h.Block() && instrIndex(st) < instrIndex(h.(ssa.Instruction)) {
+						// same block, earlier: only later if the block is in a loop
+						later = false
+					}
+					if !later {
+						continue
+					}
+					// written again afterwards?
+					again := false
+					for _, h2 := range headerWriteCalls(fn) {
+						if h2 == h {
+							continue
+						}
+						if ld2, ok := h2.Common().Args[0].(*ssa.UnOp); ok && ld2.X == ssa.Value(al) && reach(fn, st.Block(), nil)[h2.Block()] {
+							again = true
+						}
+					}
+					if !again {
+						fv := fieldVar(fa.X.Type(), fa.Field)
+						bad = append(bad, fmt.Sprintf("%s assigns Header.%s at %s after the header was written at %s", fnKey(fn), fv.Name(), c.Pos(st.Pos()), c.Pos(h.Pos())))
+					}
+				}
+			}
+		}
+	}
+	sort.Strings(bad)
+	r.Check(len(bad) == 0, "header-final-when-written@repository", "-", fmt.Sprintf("%d header writes from local header values, none modified afterwards", n),
+		strings.Join(bad, "; ")+": the bytes on disk announce what the header said before the assignment")
 }
